@@ -18,7 +18,7 @@ DML_TEXT = ("MC_Dml.tla: one table with PRIMARY KEY, UNIQUE, NOT NULL and CHECK 
             "UPDATE (Engine!DoUpsert: rows handled one after the other; conflicts on the primary key, a UNIQUE column, both, an earlier row of the "
             "same statement; replacements and updates that violate CHECK / UNIQUE / PRIMARY KEY; assignments over the stored row and VALUES(col)) on "
             "a table with a user-defined index. ")
-DML_BOUNDS = "Quick: every history of <= 5 statements (MC_Upsert: <= 2 after three populated starting points); thorough: <= 7 (MC_Upsert <= 4). "
+DML_BOUNDS = "Quick: every history of <= 5 statements (MC_Upsert: <= 2 after three populated starting points); thorough: <= 6 (MC_Upsert <= 4). "
 
 CHECKS = {
     "C01": dict(
@@ -109,7 +109,7 @@ CHECKS = {
              "SELECT with the same predicate} x 3 primary-key shapes (single column, composite, none) x 2 populated states; Engine!Selected is the one "
              "definition of the selected rows for all three statement kinds (DeleteExact, UpdateExact, SelectAgrees checked on the model).",
         note=TRUST + DML_BOUNDS + "Thin relative to the property's quantifier: the WHERE shapes are =, >, >=, IS NULL and none on INTEGER columns of one "
-             "table in MC_Dml; MC_Where: single statements at quick, pairs at thorough; subqueries and joins in DML are not modelled (index-driven row selection is exercised by MC_Idx)."),
+             "table in MC_Dml; MC_Where: single statements at quick, pairs of statements for the single-column key at thorough; subqueries and joins in DML are not modelled (index-driven row selection is exercised by MC_Idx)."),
     "C10": dict(
         engine="engine", category="model_checking", technique=T_ENGINE, design="DESIGN.md section 6 (C10), section 10",
         text=DML_TEXT + "This check reports every statement that the specification rejects because its effect violates a declared constraint but the "
